@@ -47,7 +47,7 @@ class C12(TalCheck):
     level = "fault_enumeration"
     gen_opts = {"on_error": 0.12, "max_sites": 20, "pipes": 0.3,
                 "prefixes": 0.3, "max_depth": 3, "macros": 0.25, "i18n": 0.1,
-                "entities": 0.25, "code": 0.15}
+                "entities": 0.25, "code": 0.15, "twins": 0.25}
 
     def gen(self, ch: Choices, tier: str) -> dict:
         if ch.coin(0.35):
@@ -155,7 +155,8 @@ class C12(TalCheck):
                 return vs + [self._v("str-fails", k, cname,
                                      f"str(e) raised {type(e2).__name__}: {e2}")]
             recs = parse_records(msg)
-            units = self.units(occ, k)
+            units = self.units(occ, k, m.get("fail_oid")
+                               if m["raise"] is not None else None)
             if not recs:
                 vs.append(self._v("no-location", k, cname,
                                   "message names no expression: " + msg[:200]))
@@ -228,9 +229,16 @@ class C12(TalCheck):
         return vs
 
     @staticmethod
-    def units(occ: list, k: int) -> list:
-        """Expression units enclosing probe k, innermost first."""
-        idx = next(i for i, o in enumerate(occ) if o.get("probe") == k)
+    def units(occ: list, k: int, oid=None) -> list:
+        """Expression units enclosing probe k (the occurrence ``oid`` of
+        it, when the same expression text stands at several positions),
+        innermost first."""
+        idx = None
+        if oid is not None:
+            idx = next((i for i, o in enumerate(occ)
+                        if o.get("oid") == oid), None)
+        if idx is None:
+            idx = next(i for i, o in enumerate(occ) if o.get("probe") == k)
         out = []
         while idx is not None:
             out.append(occ[idx])
